@@ -15,7 +15,7 @@ fn main_check(ctx: &Ctx) -> Outcome {
     let mut out = Outcome::default();
     let quick = ctx.quick();
     let maxlen = if quick { 5 } else { 7 };
-    let k_of = move |len: usize| if quick { 2 } else if len <= 6 { 3 } else { 2 };
+    let k_of = move |len: usize| if quick { if len <= 4 { 3 } else { 2 } } else if len <= 6 { 3 } else { 2 };
     let (findings, runs, deviating, max_points) = sweep(Mode::Strip, maxlen, &k_of);
     out.findings.extend(findings);
     out.set("evaluations", json!(runs));
@@ -23,7 +23,7 @@ fn main_check(ctx: &Ctx) -> Outcome {
     out.set("rule", json!("evaluations = executions (input x driver x script), each distinct by construction; distinct_nontrivial = executions whose script contains at least one deviation (short write or injected error); a script is the list of answers of the inner writer, enumerated CHESS-style with a bound on the number of non-default answers"));
     out.set("max_input_tokens", json!(maxlen));
     out.set("literal_format_strings", json!(LITERALS));
-    out.set("deviation_bound", json!(if quick { "2 (vectored driver on inputs of 5 tokens: 1)" } else { "3 for inputs <= 6 tokens, 2 for 7 tokens (vectored driver on inputs > 4 tokens: one less)" }));
+    out.set("deviation_bound", json!(if quick { "3 for inputs <= 4 tokens, 2 for 5 tokens (vectored driver on inputs of 5 tokens: 1)" } else { "3 for inputs <= 6 tokens, 2 for 7 tokens (vectored driver on inputs > 4 tokens: one less)" }));
     out.set("max_decision_points", json!(max_points));
     out.set("exhaustive", json!(true));
     out.push_sample(json!({"input":"a ESC[1m b","driver":"WriteProtocol","script":[2,0],"meaning":"first inner write accepts 0 bytes, second accepts all"}));
